@@ -3,7 +3,7 @@
    message codecs; transcript = the exact bytes given to update_hash.  Every statement is for all
    configurations, all message sequences and all oracle behaviours satisfying the stated premises. *)
 From AQ Require Import lib.Base gen.TlsDispatch model.TlsSymbolic.
-From AQ Require Import gen.TlsTranscript proofs.TlsSymbolicP1 proofs.TlsSymbolicPGen.
+From AQ Require Import gen.TlsTranscript proofs.TlsSymbolicP1 proofs.TlsSymbolicP2 proofs.TlsSymbolicP3 proofs.TlsSymbolicPGen.
 
 (* every message sequence, every oracle behaviour (no cryptographic premise needed): a client that reaches
    CLIENT_POST_HANDSHAKE verified a CertificateVerify (advertised algorithm) under the leaf of the certificate
@@ -33,3 +33,89 @@ Theorem generated_fragment_as_modelled :
   (gen_version_1 = V1 /\ gen_version_2 = V2).
 Proof. exact generated_fragment_as_modelled_lemma. Qed.
 Print Assumptions generated_fragment_as_modelled.
+
+(* idealised cryptography (ideal_crypto: o_hash, o_hmac, o_expand injective, parse_fin (build_fin v) = v):
+   a Finished verify_data determines hash algorithm, base key and the WHOLE transcript *)
+Theorem finished_binds_transcript :
+  forall O, ideal_crypto O ->
+  forall k e k' e', ks_finished O k e = ks_finished O k' e' -> k_alg k = k_alg k' /\ e = e' /\ k_tr k = k_tr k'.
+Proof. exact finished_binds_transcript_x. Qed.
+Print Assumptions finished_binds_transcript.
+
+(* PARTIAL (per step, Finished provenance as premise): a client that accepts the Finished the honest server computed
+   over schedule kS with key eS has the server's transcript, hash algorithm and handshake traffic secret; if both
+   secrets have the key-schedule form, the two schedules coincide and every later secret (application traffic
+   secrets, resumption secret) is equal.  Missing for the full statement: the run-level closure (key-schedule form
+   of t_dec as an invariant), cipher SUITE (beyond hash algorithm) / ALPN / resumption flag as functions of the
+   equal transcripts through the codec round trips. *)
+Theorem transcript_agreement_partial :
+  forall O, ideal_crypto O ->
+  (forall c s m s' out0 kS eS,
+    client_handle_finished O c s m = (OOk, s', out0) ->
+    m = o_build_fin O (ks_finished O kS eS) ->
+    k_tr (the_ks s) = k_tr kS /\ k_alg (the_ks s) = k_alg kS /\ t_dec s = eS /\
+    (hs_key_of O (the_ks s) (t_dec s) -> hs_key_of O kS eS -> k_gen kS = 2 ->
+     ks_eqv (the_ks s) kS /\
+     forall l, ks_derive O (ks_extract O (ks_update (the_ks s) m) None) l = ks_derive O (ks_extract O (ks_update kS m) None) l)) /\
+  (forall c s0 m s' out0 kC eC,
+    server_handle_finished O c (server_expect_finished O s0) m = (OOk, s', out0) ->
+    m = o_build_fin O (ks_finished O kC eC) ->
+    k_tr (the_ks s0) = k_tr kC /\ k_alg (the_ks s0) = k_alg kC /\ t_dec s0 = eC).
+Proof. exact (fun O H => conj (transcript_agreement_client_x O H) (transcript_agreement_server_x O H)). Qed.
+Print Assumptions transcript_agreement_partial.
+
+(* PARTIAL (per step): if ONE handshake message of the receiver's transcript differs from what the honest sender
+   hashed (both framed, any position, any other content), the sender's Finished is refused: the client does not
+   reach CLIENT_POST_HANDSHAKE, the server answers decrypt_error and stays where it was *)
+Theorem tamper_detected_partial :
+  forall O, ideal_crypto O ->
+  forall c pre m m' post post', framed m -> framed m' -> m <> m' ->
+  (forall s kS eS, k_tr kS = pre ++ m ++ post -> k_tr (the_ks s) = pre ++ m' ++ post' ->
+     forall o s' out0, client_handle_finished O c s (o_build_fin O (ks_finished O kS eS)) = (o, s', out0) ->
+     o <> OOk /\ t_state s' = t_state s) /\
+  (forall s0 kC eC, k_tr kC = pre ++ m ++ post -> k_tr (the_ks s0) = pre ++ m' ++ post' ->
+     forall o s' out0,
+       server_handle_finished O c (server_expect_finished O s0) (o_build_fin O (ks_finished O kC eC)) = (o, s', out0) ->
+       o = OAlert AD_decrypt_error /\ s' = server_expect_finished O s0).
+Proof. exact tamper_detected_x. Qed.
+Print Assumptions tamper_detected_partial.
+
+(* no common cipher suite / signature algorithm / TLS version / ALPN: for EVERY message sequence the server stays
+   in SERVER_EXPECT_CLIENT_HELLO; the client refuses a ServerHello with a suite or version it did not offer *)
+Theorem no_common_option_partial :
+  forall O c,
+  (forall ms, (forall m v, In m ms -> o_parse_ch O m = POk v -> no_common c v) ->
+              t_state (run O c (init_server c) ms) = SERVER_EXPECT_CLIENT_HELLO) /\
+  (forall s m v, o_parse_sh O m = POk v ->
+     (memz (sh_suite v) (f_suites c) = false \/
+      match sh_version v with Some x => memz x (f_versions c) = false | None => True end) ->
+     exists d, client_handle_hello O c s m = (OAlert d, s, [])).
+Proof. exact no_common_option_x. Qed.
+Print Assumptions no_common_option_partial.
+
+(* QUIC: the version / connection-ID checks of _parse_transport_parameters, the server's version choice and the
+   client's handling of a Version Negotiation packet *)
+Theorem version_agreement_partial :
+  (forall remote_iscid odcid rscid cpv tp chosen avail,
+     tp_check true remote_iscid odcid rscid cpv tp = 0 -> tp_vi tp = Some (chosen, avail) ->
+     chosen = cpv /\ obeqb (tp_iscid tp) remote_iscid = true /\ obeqb (tp_odcid tp) odcid = true /\
+     obeqb (tp_rscid tp) rscid = true) /\
+  (forall remote_iscid cpv tp chosen avail,
+     tp_check false remote_iscid None None cpv tp = 0 -> tp_vi tp = Some (chosen, avail) ->
+     chosen = cpv /\ In chosen avail) /\
+  (forall supported current avail,
+     let v := server_choose_version supported current avail in
+     v = current \/ (In v supported /\ In v avail /\ is_version_compatible current v = true)) /\
+  (forall supported current vn,
+     match client_receive_vn supported current vn with
+     | None => In current vn
+     | Some None => forall v, In v supported -> ~ In v vn
+     | Some (Some v) => In v supported /\ In v vn
+     end).
+Proof. exact version_agreement_x. Qed.
+Print Assumptions version_agreement_partial.
+
+(* non-vacuity: the premises are satisfiable (a concrete oracle record), and with it an honest pair completes *)
+Theorem ideal_crypto_satisfiable : exists O, ideal_crypto O.
+Proof. exact (ex_intro _ toyO toy_ideal). Qed.
+Print Assumptions ideal_crypto_satisfiable.
